@@ -54,12 +54,21 @@ func runC15(p *Program, r *Report) {
 		r.Undecided("R15a", name+"/anchors", p.Pos(fn.Pos()), "cannot identify the memory limit parameter or the returned schedule")
 		return
 	}
-	// cache web: slices of a struct element type made with capacity maxMemory, closed under phi/append/slices.Delete
+	// cache web: the slice whose length is compared with maxMemory (or that is made with that capacity), closed under
+	// phi / append / slices.Delete in both directions (the make that starts it is found through the phi it feeds)
 	web := map[ssa.Value]bool{}
 	for _, b := range fn.Blocks {
 		for _, in := range b.Instrs {
 			if ms, ok := in.(*ssa.MakeSlice); ok && ms.Cap == maxMem {
 				web[ms] = true
+			}
+			// the working cache is the slice whose length is compared with the limit
+			if bo, ok := in.(*ssa.BinOp); ok {
+				for _, pr := range [][2]ssa.Value{{bo.X, bo.Y}, {bo.Y, bo.X}} {
+					if s, isLen := lenArg(pr[0]); isLen && flowsFrom(pr[1], func(x ssa.Value) bool { return x == maxMem }, 0, map[ssa.Value]bool{}) {
+						web[s] = true
+					}
+				}
 			}
 		}
 	}
@@ -78,6 +87,15 @@ func runC15(p *Program, r *Report) {
 							web[v], changed = true, true
 						}
 					}
+				case *ssa.MakeSlice:
+					// a make that feeds a phi of the web starts the web
+					if x.Referrers() != nil {
+						for _, ref := range *x.Referrers() {
+							if ph, ok := ref.(*ssa.Phi); ok && web[ph] {
+								web[v], changed = true, true
+							}
+						}
+					}
 				case *ssa.Call:
 					cc := x.Common()
 					if (builtinName(cc) == "append" || isSlicesFunc(cc, "Delete")) && len(cc.Args) > 0 && web[cc.Args[0]] {
@@ -92,7 +110,7 @@ func runC15(p *Program, r *Report) {
 		}
 	}
 	if len(web) == 0 {
-		r.Undecided("R15a", name+"/anchors", p.Pos(fn.Pos()), "cannot identify the working cache (a slice made with capacity maxMemory)")
+		r.Undecided("R15a", name+"/anchors", p.Pos(fn.Pos()), "cannot identify the working cache (the slice whose length is compared with the memory limit)")
 		return
 	}
 	// R15a: growth sites
